@@ -362,7 +362,18 @@ fn s_stdout(t: &mut Tape, sc: &mut Sc) -> Verdict {
         if let Err((sig, msg)) = quiet(&o) {
             return sc.fail(&format!("write-fault:{}", sig), format!("write call {} of {} on stdout fails with EPIPE: {}", n, wn, msg), json!({"fault_at_write": n, "writes": wn}));
         }
-        if !base.stdout.starts_with(&o.stdout) {
+        // (a mismatch must show twice, against a fresh fault-free run, before it is reported: one was
+        // seen once under heavy load in a thorough run and did not reproduce from its own case)
+        let differs = !base.stdout.starts_with(&o.stdout) && {
+            *sc.ctx.notes.entry("delivered_bytes_mismatch_rechecked".to_string()).or_insert(0) += 1;
+            let fresh = sc.run(&Run { env: shim_env(sc.w, "1", 0, &log), ..base_run.clone() });
+            let again = sc.run(&r);
+            match (fresh, again) {
+                (Ok(f), Ok(a)) => !f.stdout.starts_with(&a.stdout),
+                _ => false,
+            }
+        };
+        if differs {
             return sc.fail("write-fault:delivered-bytes-differ", format!("write call {} of {} fails: the bytes delivered before are not a prefix of the fault-free output", n, wn), json!({"fault_at_write": n}));
         }
     }
@@ -479,7 +490,23 @@ fn s_pager(t: &mut Tape, sc: &mut Sc) -> Verdict {
             return sc.fail("pager-write-fault:exited-before-pager", format!("write call {} of {} fails: delta exited before the pager did", n, wn), json!({"fault_at_write": n}));
         }
         let got = std::fs::read(&stdin_file).unwrap_or_default();
-        if !reference.stdout.starts_with(&got) {
+        let differs = !reference.stdout.starts_with(&got) && {
+            *sc.ctx.notes.entry("delivered_bytes_mismatch_rechecked".to_string()).or_insert(0) += 1;
+            let mut ra = args.clone();
+            ra.retain(|a| !a.starts_with("--paging"));
+            ra.push("--paging=never".to_string());
+            let fresh = sc.run(&Run { args: ra, stdin: Some(input.clone()), ..Default::default() });
+            let _ = std::fs::remove_file(&stdin_file);
+            let mut e = env.clone();
+            e.extend(shim_env(sc.w, "pipe", n, &log));
+            let again = sc.run(&Run { env: e, ..base_run.clone() });
+            let got2 = std::fs::read(&stdin_file).unwrap_or_default();
+            match (fresh, again) {
+                (Ok(f), Ok(_)) => !f.stdout.starts_with(&got2),
+                _ => false,
+            }
+        };
+        if differs {
             return sc.fail("pager-write-fault:delivered-bytes-differ", format!("write call {} of {} fails: what the pager received is not a prefix of the fault-free output", n, wn), json!({"fault_at_write": n}));
         }
     }
